@@ -124,7 +124,7 @@ func C01(r *explore.Run) {
 	keywordReplaceSpace(r, 2, body)
 	identReplaceSpace(r, 1, body)
 	reservedAsIdentSpace(r, body)
-	editSpaceMode(r, 1, "light", body)
+	lightEditsAdaptive(r, 2, 3000, body)
 	// lists of sentences through the list entry points
 	grammarSpace(r, "S4/grammar-lists", 1, func(c *explore.Ctx, s *grammar.Sentence) {
 		if !isStatementKind(s.Kind) {
@@ -352,7 +352,7 @@ func C02(r *explore.Run) {
 	keywordReplaceSpace(r, 2, kept)
 	identReplaceSpace(r, 1, kept)
 	reservedAsIdentSpace(r, kept)
-	editSpaceMode(r, 1, "light", kept)
+	lightEditsAdaptive(r, 2, 3000, kept)
 }
 
 // reservedAsIdentSpace: every reserved word, back-quoted, in every identifier role of a few small inputs.
